@@ -148,6 +148,35 @@ def mode_crossing(v, binary, acc):
     return mode_ok
 
 
+def retry_rejected(v, binary, triples, tag="retry"):
+    """triples: (case dict, option mask, text) of lines that were REJECTED when assembled alone. Each is submitted again: twice in a row
+    on one instance with asm_set_offset(0) in between, and once more after a valid line - a rejection must not depend on whether
+    the very same text was seen just before (whatever a failed parse leaves behind must not be reused). Returns #checks that held."""
+    cases, meta = [], []
+    for (c, m, text) in triples:
+        hx_ = common.hx(text)
+        cmds = ["new 0 ext 128 H 0xcc", "opt 0 mov %s" % m[0], "opt 0 swap %s" % m[1], "opt 0 nobase %s" % m[2],
+                "asm 0 %s" % hx_, "setoff 0 0", "asm 0 %s" % hx_, "setoff 0 0", "asm 0 %s" % common.hx("nop"), "asm 0 %s" % hx_, "setoff 0 0", "asm 0 %s" % hx_, "guard 0"]
+        cases.append(cmds)
+        meta.append((c, m, text))
+    res = common.run_cases(binary, cases, tag=v.prop.lower() + tag)
+    ok = 0
+    for (c, m, text), cmds, r in zip(meta, cases, res):
+        v.count()
+        cc = {k: x for k, x in c.items() if k not in ("exp", "alt", "nasm")}
+        cc.update({"key": "retry %r [%s]" % (text, m), "combo": m, "fam": "retry_rejected", "text": text, "script": cmds})
+        if r["crash"]:
+            v.violation(cc, r["crash"]["sig"], r["crash"]["stderr"][-800:])
+            continue
+        recs = r["records"]
+        rcs = [recs[i].split()[1] for i in (4, 6, 9, 11)]
+        if any(x == "0" for x in rcs):
+            v.violation(cc, "accepted-on-resubmission", "return codes of the four submissions of the same rejected line: %s" % rcs)
+        else:
+            ok += 1
+    return ok
+
+
 def decode_symptom(b):
     """symptom string for an encoding the decoders do not read as exactly one instruction"""
     st, c1, c2, info = oracle.canon_bytes(b)
